@@ -146,6 +146,25 @@ def oracle_table(case, ctx):
 @st.composite
 def strat_hist(draw, tier):
     n = 40 if tier == 'quick' else 300
+    k = draw(st.integers(0, 3))
+    if k == 0:
+        # door dance: open a door by ACTUATE (in-place status change), then walk through it and back
+        space = draw(gen.space_s(must=('Floor', 'Door', 'Key')))
+        sd = draw(gen.state_s(space, min_hw=3, max_hw=6, valid=True))
+        y, x = sd['agent'][0], sd['agent'][1]
+        inward = [h for h in HEADINGS if M.in_grid(sd, (y + 2 * M.FWD[h][0], x + 2 * M.FWD[h][1]))] or \
+                 [h for h in HEADINGS if M.in_grid(sd, (y + M.FWD[h][0], x + M.FWD[h][1]))]
+        sd['agent'][2] = draw(st.sampled_from(inward))
+        f = M.front(sd)
+        col = draw(st.sampled_from(space['colors']))
+        status = draw(st.sampled_from(['CLOSED', 'LOCKED', 'OPEN']))
+        sd['grid'][f[0]][f[1]] = f'D:{status}:{col}'
+        sd['agent'][3] = f'K:{col}' if draw(st.integers(0, 3)) else '_'
+        acts = ['ACTUATE', 'MOVE_FORWARD', 'MOVE_FORWARD', 'MOVE_BACKWARD', 'MOVE_BACKWARD', 'MOVE_FORWARD'] + draw(st.lists(gen.action_s, max_size=10))
+        return {'kind': 'generated', 'state': sd, 'chain': ['move_agent', 'turn_agent', 'actuate_door', 'pickndrop'], 'seed': draw(gen.seed_s), 'actions': acts}
+    if k == 1:
+        return {'kind': 'shipped', 'config': draw(st.sampled_from([c for c in envs.shipped_names() if 'keydoor' in c])), 'seed': draw(gen.seed_s), 'guided': True,
+                'actions': draw(st.lists(st.integers(0, 7), min_size=1, max_size=n))}
     if draw(st.booleans()):
         space = draw(gen.space_s())
         sd = draw(gen.state_s(space, min_hw=2, max_hw=6, valid=True))
@@ -159,7 +178,8 @@ def _valid_pose(ctx, sd, real_state, what):
     y, x = sd['agent'][0], sd['agent'][1]
     if not M.in_grid(sd, (y, x)):
         ctx.fail(f'{what}: agent outside the grid at {(y, x)}', {'kind': 'history_outside'})
-    if real_state.grid[y, x].blocks_movement:
+    # independent oracle: the documented flag of the cell (status OPEN = passable), not the object's own attribute
+    if M.blocks_movement(M.cell(sd, (y, x))) or real_state.grid[y, x].blocks_movement:
         ctx.fail(f'{what}: agent on a movement-blocking cell {M.cell(sd, (y, x))} at {(y, x)}', {'kind': 'history_blocked'})
 
 
@@ -187,11 +207,17 @@ def oracle_hist(case, ctx):
         sd = objs.canon_state(env.state)
         _valid_pose(ctx, sd, env.state, f'{case["config"]} reset')
         nact = env.action_space.num_actions
-        for i, ai in enumerate(case['actions']):
-            a = env.action_space.int_to_action(ai % nact)
+        chain = [t['name'] for t in envs.shipped_data(case['config'])['transition_functions']]
+        builtin = all(n in M.TRANSITIONS for n in chain)
+        acts = [env.action_space.int_to_action(ai % nact) for ai in case['actions']]
+        if case.get('guided'):
+            acts = [objs.action(a) for a in (M.plan_keydoor(sd) or [])] + acts
+        for i, a in enumerate(acts):
             r, t = guarded(ctx, f'step {a.name}', env.step, a)
             nd = objs.canon_state(env.state)
             _valid_pose(ctx, nd, env.state, f'{case["config"]} step {i} ({a.name})')
+            if builtin:
+                expected_pose_ok(ctx, sd, a.name, chain, nd, f'{case["config"]} step {i}')
             cl = classes_for(sd, a.name)
             blocked += ('move_outside' in cl or 'move_blocked' in cl)
             moved += nd['agent'][:3] != sd['agent'][:3]
